@@ -774,7 +774,7 @@ pub fn check_step(s: &Step, tr: &mut Tracker, viols: &mut Vec<Viol>) -> Decides 
             let same = src.entries.len() == cl.entries.len()
                 && src.entries.iter().zip(cl.entries.iter()).all(|(a, b)| a.id == b.id && a.size == b.size && a.kheap == b.kheap && a.vheap == b.vheap && a.recorded == b.recorded);
             if !same {
-                out.push(C14, "clone-differs", format!("clone has entries {:?}, source {:?} (id, size; LRU first)", cl.entries.iter().map(|e| (e.id, e.size)).collect::<Vec<_>>(), src.entries.iter().map(|e| (e.id, e.size)).collect::<Vec<_>>()));
+                out.push(C14, "clone-differs", format!("clone has entries {:?}, source {:?} (id, entry size, accounted size; LRU first)", cl.entries.iter().map(|e| (e.id, e.size, e.recorded)).collect::<Vec<_>>(), src.entries.iter().map(|e| (e.id, e.size, e.recorded)).collect::<Vec<_>>()));
             }
             if cl.cur != src.cur || cl.max != src.max || cl.len != src.len {
                 out.push(C14, "clone-totals", format!("clone: len {} current_size {} max_size {}; source: {} {} {}", cl.len, cl.cur, cl.max, src.len, src.cur, src.max));
@@ -886,13 +886,20 @@ pub fn check_step(s: &Step, tr: &mut Tracker, viols: &mut Vec<Viol>) -> Decides 
         if hashes > bound {
             out.push(C20, "hash-count", format!("{} computed {} key hashes; bound is {} (len {}, {} entries left, table rebuilt: {})", s.op.kind.name(), hashes, bound, pre.len, departed, grew || s.op.kind.is_capacity_op()));
         }
-        // a rebuild hashes each held entry once
-        let mut stored: Vec<u32> = s.events.iter().filter(|e| e.kind == EV_HASH_KEY).map(|e| e.a).filter(|a| pre.entries.iter().any(|p| p.ktok == *a)).collect();
-        stored.sort_unstable();
-        for w in stored.windows(2) {
-            if w[0] == w[1] {
-                out.push(C20, "hash-twice", format!("{} hashed stored key #{} more than once", s.op.kind.name(), w[0]));
-                break;
+        // "operations that rebuild the table additionally hash each held entry, once": in a
+        // rebuilding operation no key that stays in the cache may be hashed twice (the count bound
+        // alone would let one entry be hashed twice if another were skipped)
+        let rebuild_op = grew || s.op.kind.is_capacity_op() || matches!(s.op.kind, OpKind::CloneTo);
+        if rebuild_op {
+            if let Some(p) = post_t {
+                let mut stored: Vec<u32> = s.events.iter().filter(|e| e.kind == EV_HASH_KEY).map(|e| e.a).filter(|a| pre.entries.iter().any(|q| q.ktok == *a) && p.entries.iter().any(|q| q.ktok == *a)).collect();
+                stored.sort_unstable();
+                for w in stored.windows(2) {
+                    if w[0] == w[1] {
+                        out.push(C20, "hash-twice", format!("{} rebuilt the table and hashed held key #{} more than once", s.op.kind.name(), w[0]));
+                        break;
+                    }
+                }
             }
         }
     }
